@@ -643,6 +643,35 @@ struct SrcDoc {
   json: Value,
 }
 
+/// Adds `boost` (0, 0.5 or 3) to some of the query nodes that take one; returns how many.
+fn add_boosts(rng: &mut Rng, q: &mut Value) -> usize {
+  let mut n = 0;
+  if let Some(o) = q.as_object_mut() {
+    let boostable = matches!(
+      o.get("type").and_then(|t| t.as_str()),
+      Some("term" | "prefix" | "wildcard" | "regex" | "phrase" | "query_string" | "multi_match" | "bool" | "dis_max" | "match_all")
+    );
+    if boostable && !o.contains_key("boost") && rng.chance(1, 2) {
+      o.insert("boost".into(), json!(*rng.pick(&[0.0f32, 0.0, 0.5, 3.0][..])));
+      n += 1;
+    }
+    for k in ["must", "should", "must_not", "queries", "query"] {
+      if let Some(v) = o.get_mut(k) {
+        match v {
+          Value::Array(a) => {
+            for x in a.iter_mut() {
+              n += add_boosts(rng, x);
+            }
+          }
+          Value::Object(_) => n += add_boosts(rng, v),
+          _ => {}
+        }
+      }
+    }
+  }
+  n
+}
+
 fn gen_text_value(rng: &mut Rng) -> String {
   match rng.below(12) {
     0 => String::new(),
@@ -933,6 +962,15 @@ fn main() {
       if cx.over_cap {
         *dist.entry("skipped_near_expansion_cap".into()).or_insert(0) += 1;
         continue;
+      }
+      // boosts never change which documents match (a boost of 0 "disables the scoring
+      // contribution while still matching"): decorate a third of the queries with them
+      let mut qj = qj;
+      if rng.chance(1, 3) {
+        let n = add_boosts(&mut rng, &mut qj);
+        if n > 0 {
+          cx.bump("query_with_boosts");
+        }
       }
       let mut obs: Vec<Vec<u64>> = Vec::new();
       let mut skipped = false;
